@@ -270,6 +270,41 @@ def r19f(ctx, rep, rule="R19f"):
     rep.floor(rule, "datum copies made for error payloads", n, 20)
 
 
+def r19g(ctx, rep, rule="R19g"):
+    from .numeric import _base_chain
+    facts = ctx["facts"]
+    rep.rule(rule, "equal? stays iterative along cdr: compare_pair keeps its loop, and no call of Vm::equal inside it takes an "
+             "operand obtained directly from as_cdr (the cdr of both lists feeds the loop cursors). The textbook form "
+             "equal(car) && equal(cdr) costs one native frame per list element, so comparing two long lists aborts.")
+    f = need(rep, rule, facts, "marwood::vm::compare::<impl marwood::vm::Vm>::compare_pair")
+    if f is None:
+        return
+    if not f.back_edges():
+        rep.fail(rule, "%s|compare_pair|loop" % rule, "compare_pair no longer contains a loop: every pair of a list costs a native frame", [f.span])
+        return
+    bad = []
+    for bb, t in f.calls():
+        if not (callee(t) or "").endswith("::equal"):
+            continue
+        for a in t["args"][1:]:
+            for l in _base_chain(f, a):
+                sd = f.single_def(l)
+                if sd is not None and sd[2] == "call":
+                    c = callee(sd[3]) or ""
+                    if c.endswith("VCell::as_cdr"):
+                        bad.append(t)
+                    elif "Try>::branch" in (sd[3].get("fnargs") or c) and sd[3]["args"]:
+                        o = f.origin(sd[3]["args"][0])
+                        if o[0] == "call" and (callee(o[1]) or "").endswith("VCell::as_cdr"):
+                            bad.append(t)
+    key = "%s|compare_pair|cdr" % rule
+    if bad:
+        rep.fail(rule, key, "compare_pair hands the cdr of its operands to a recursive Vm::equal call instead of to its loop "
+                 "cursors: native depth follows the length of the lists", [bad[0]["loc"]])
+    else:
+        rep.ok(rule, key, "compare_pair loops along cdr and recurses only on car / the terminal tail", [f.span])
+
+
 def run(ctx, rep):
     r19a(ctx, rep)
     r19b(ctx, rep)
@@ -277,5 +312,6 @@ def run(ctx, rep):
     r19d(ctx, rep)
     r19e(ctx, rep)
     r19f(ctx, rep)
+    r19g(ctx, rep)
     rep.not_decided += ["actual frame sizes and the depth at which the abort happens",
                         "recursion hidden inside external crates (num, std)"]
